@@ -1080,6 +1080,15 @@ def vec_model(eng, ctx, cp, self_ty, trait, m, args):
         if v.elems is None:
             _unsupported("iteration over opaque byte string")
         return IterV([Ref(v.elems, i) for i in range(len(v.elems))])
+    if m == "windows" and v.elems is not None and v.kind not in ("str", "string") and not is_sym(args[1].v):
+        # core::slice::windows(n): the overlapping sub-slices of length n, in order (views, not copies)
+        n = int(args[1].v)
+        if n == 0:
+            _panic("explicit", "window size must be non-zero", cp.raw)
+        if any(isinstance(e, Opaque) for e in v.elems):
+            _unsupported("windows over a byte string with an opaque segment")
+        return IterV([Ref(Cell(VecV(ViewList(v.elems, i, i + n), None, v.kind)))
+                      for i in range(max(0, len(v.elems) - n + 1))])
     if m == "pop":
         if not v.elems:
             return OPT_NONE()
